@@ -55,6 +55,7 @@ OffsetOf(bytes, line, col) ==      \* 0-based offset of the position (line, col)
 RowField(v, name) == v.v[KeyIdx(v, name)]
 IntOf(x) == IntOfDec(x)
 nI == <<105>>  nF == <<102>>  nSL == <<115, 108>>  nSC == <<115, 99>>  nEL == <<101, 108>>  nEC == <<101, 99>>  nFN == <<102, 110>>  nV == <<118>>
+HasCtxFields(v) == \A nm \in {nI, nF, nSL, nSC, nEL, nEC, nV} : KeyIdx(v, nm) # 0 /\ (nm # nV => v.v[KeyIdx(v, nm)].t = "num")
 CheckCtx(r) ==
   LET lines == RowLines(r.out)
       rows == [k \in 1..Len(lines) |-> R!StrictParse(lines[k])] \o <<>>
@@ -76,7 +77,8 @@ CheckCtx(r) ==
             so == OffsetOf(srcs[s], IntOf(RowField(row, nSL)), IntOf(RowField(row, nSC)))
             eo == OffsetOf(srcs[s], IntOf(RowField(row, nEL)), IntOf(RowField(row, nEC)))
             prevEnd == IF k = 1 THEN 0 ELSE OffsetOf(srcs[s], IntOf(RowField(rows[g - 1].v, nEL)), IntOf(RowField(rows[g - 1].v, nEC)))
-        IN /\ IntOf(RowField(row, nI)) = g - 1
+        IN /\ HasCtxFields(rows[g].v) /\ (k = 1 \/ HasCtxFields(rows[g - 1].v))      \* a selector that yields nothing leaves its column out
+           /\ IntOf(RowField(row, nI)) = g - 1
            /\ IntOf(RowField(row, nF)) = k - 1
            /\ (IF r.names = <<>> THEN KeyIdx(row, nFN) = 0 ELSE KeyIdx(row, nFN) # 0 /\ RowField(row, nFN) = Str(r.names[s]))
            /\ FSame(refs[s].vals[vi], RowField(row, nV))
